@@ -56,15 +56,21 @@ static struct {
 	int   owner;
 } mt[MTAB];
 
+static unsigned mt_used;
 static int *
 mowner(void *k)
 {
 	size_t h = ((uintptr_t) k >> 3) % MTAB;
+	if (mt_used > MTAB - 64) {
+		fprintf(stderr, "SIM: mutex table full\n");
+		abort();
+	}
 	for (;;) {
 		if (mt[h].key == k) {
 			return &mt[h].owner;
 		}
 		if (mt[h].key == NULL) {
+			mt_used++;
 			mt[h].key   = k;
 			mt[h].owner = -1;
 			return &mt[h].owner;
@@ -466,3 +472,18 @@ void sim_jumps(unsigned long *n, unsigned long *ms) { *n = auto_jumps; *ms = aut
 void sim_seed_user(uint64_t s) { rng_user = s; }
 
 long long sim_now_ms(void) { return (long long) vnow; }
+
+// Forget all mutex addresses.  Only legal when no mutex is held (the harness calls it
+// right after nng_fini): statically initialised mutexes are re-entered on first use.
+void
+sim_reset_mutex_table(void)
+{
+	for (int i = 0; i < MTAB; i++) {
+		if (mt[i].key != NULL && mt[i].owner != -1) {
+			fprintf(stderr, "SIM: mutex %p still held at table reset\n", mt[i].key);
+			abort();
+		}
+	}
+	memset(mt, 0, sizeof(mt));
+	mt_used = 0;
+}
